@@ -263,7 +263,7 @@ def _nonull(x):
     return x
 
 
-def validate_traces(traces, module, props, workers=8, timeout=900, extra_constants=None, wd=None, batch=None, heap="8g"):
+def validate_traces(traces, module, props, workers=8, timeout=900, extra_constants=None, wd=None, batch=None, heap="8g", max_steps=60000):
     """Validate a list of JSON-able traces with the trace spec <module> (a module of spec/ that
     reads IOEnv.TRACE_FILE and has constants Props).  Returns dict(viol=[...], drift=[...],
     states=..., expected_states=..., ok_consumed=bool)."""
@@ -272,8 +272,19 @@ def validate_traces(traces, module, props, workers=8, timeout=900, extra_constan
     out_all = {"viol": [], "drift": [], "states": 0, "expected_states": 0, "wall_s": 0.0, "runs": 0, "errors": []}
     batch = batch or len(traces) or 1
     try:
-        for b0 in range(0, len(traces), batch):
-            chunk = traces[b0:b0 + batch]
+        # batches are bounded by the number of traces and by the number of steps (TLC's JSON reader and heap)
+        bounds, start, acc = [], 0, 0
+        for i, t in enumerate(traces):
+            n = len(t["steps"])
+            if i > start and (i - start >= batch or acc + n > max_steps):
+                bounds.append((start, i))
+                start, acc = i, 0
+            acc += n
+        bounds.append((start, len(traces)))
+        for b0, b1 in bounds:
+            chunk = traces[b0:b1]
+            if not chunk:
+                continue
             tf = os.path.join(wd, "traces_%d.json" % b0)
             with open(tf, "w") as f:
                 json.dump(_nonull(chunk), f)
